@@ -164,12 +164,12 @@ def h_meta(H):
 
 
 # ----------------------------------------------------------------------------- bounded: numerics on real files
-def native_lf(rng, ns, windows, version="NP2.4"):
+def native_lf(rng, ns, windows, version="NP2.4", rate=None):
     bad = []
     d = tempfile.mkdtemp(prefix="c12_")
     try:
         fixm = None if version == "NP2.4" else os.path.join(os.path.dirname(C03.FIXM), "..", "NP21_meta", os.path.basename(C03.FIXM))
-        ap, D = C03._mk_np24(d, 0.5, 8192, ns, rng=rng, fixm=fixm)
+        ap, D = C03._mk_np24(d, 0.5, 8192, ns, rng=rng, fixm=fixm, rate=rate)
         # broadband, band-limited-ish AP so that the LF is not trivial
         x = np.cumsum(rng.standard_normal((ns, 385)) * 40, axis=0)
         x -= x.mean(axis=0)
@@ -182,7 +182,7 @@ def native_lf(rng, ns, windows, version="NP2.4"):
                 # the single-shank conversion writes next to the ap file: give every window size its own copy of the same recording
                 d2 = os.path.join(d, f"copy{wi}")
                 os.makedirs(d2)
-                ap, _ = C03._mk_np24(d2, 0.5, 8192, ns, rng=np.random.default_rng(0), fixm=fixm)
+                ap, _ = C03._mk_np24(d2, 0.5, 8192, ns, rng=np.random.default_rng(0), fixm=fixm, rate=rate)
                 D.tofile(ap)
             conv = neuropixel.NP2Converter(ap, post_check=False, compress=False)
             conv.init_params(nwindow=wdw, extra=f"_w{wi}")
@@ -225,7 +225,7 @@ def native_lf(rng, ns, windows, version="NP2.4"):
         shutil.rmtree(d, ignore_errors=True)
 
 
-@bounded(PROPERTY, "native_lf_values", bound="real NP2.4 and NP2.1 recordings (385 ch, broadband random walk), ns in {7003+k: k = n mod 12 in 0..11 sampled} (quick 3 lengths, thorough 12), windows {3000, 6000, 12*777}; "
+@bounded(PROPERTY, "native_lf_values", bound="real NP2.4 and NP2.1 recordings (385 ch, broadband random walk), ns in {7003+k: k = n mod 12 in 0..11 sampled} (quick 3 lengths, thorough 12), windows {3000, 6000, 12*777}; a calibrated rate of 30000.6 Hz and a length whose duration x 30000 falls below it in floating point; "
          "count == ceil(ns/12), sync every 12th, window independence <= 1 LSB, equality with whole-trace sosfiltfilt + [::12] <= 1 LSB away from the two edges, reader shape/rate",
          clause="numeric LFP equality and window independence; LF file opens with a shape matching its content")
 def b_native(B):
@@ -234,6 +234,10 @@ def b_native(B):
     for ns in lens:
         bad = native_lf(rng, ns, [3000, 6000, 12 * 777])
         B.case(("lf", ns, ns % 12), not bad, detail=bad[:4], inputs={"ns": ns})
+    # a probe whose calibrated rate is not the nominal 30 kHz (every real one): still every sample, ceil(ns / 12) LF samples
+    for ns, rate in ((7009, 30000.6), (3805, None)):
+        bad = native_lf(rng, ns, [3000, 6000], rate=rate)
+        B.case(("lf_calibrated_rate", ns, rate or 30000), not bad, detail=bad[:4], inputs={"ns": ns, "imSampRate": rate or 30000})
     # the single-shank path (NP2.1) goes through its own window loop: 1, 2 and 3+ windows
     for ns in lens[:1] if B.tier == "quick" else lens[::4]:
         bad = native_lf(rng, ns, [12 * 777, 6000, 3000], version="NP2.1")
